@@ -241,6 +241,7 @@ package types
 //@   props C35
 //@   modifies all
 //@   ensures [client-and-app-authorised] err == nil ==> rpAuth(old(r.Proof))
+//@   ensures [node-in-validated-session] err == nil ==> svOK
 //@   ensures [proof-names-this-node] err == nil ==> addrEq(pkAddr(keyOfHex(old(r.Proof.ServicerPubKey))), nodeAddr(servicerNode))
 //@   ensures [request-bound] err == nil ==> old(r.Proof.RequestHash) == reqHashHex(old(r.Payload), old(r.Meta))
 //@   ensures [hosted] err == nil ==> hosted(hb, old(r.Proof.Blockchain))
@@ -251,9 +252,92 @@ package types
 //@ func (SessionNodes).Validate
 //@   trusted structural check of the node list (count, no empty entries)
 //@   pure_fn
+//@ ghost svOK bool
+//@ ghost svNode Bytes
 //@ func (Session).Validate
 //@   props C35,C33
 //@   modifies nothing
+//@   logs svOK == (result == nil)
+//@   logs svNode == bytes(node)
 //@   ensures [node-in-session] result == nil ==> node != nil && (exists j int :: 0 <= j && j < len(s.SessionNodes) && s.SessionNodes[j] != nil && addrEq(bytes(s.SessionNodes[j]), bytes(node)))
 //@   ensures [basic] result == nil ==> len(s.SessionHeader.Chain) != 0 && s.SessionHeader.SessionBlockHeight >= 1
 //@   loop 0 invariant 0 - 1 <= rangeindex && rangeindex < len(chains)
+
+// nextPowerOfTwo (bit smearing over 32 bits): for 1 <= v <= 2^32 the result is the least power
+// of two >= v. Proved in bit-vector mode over the full 64-bit domain restricted by the precondition.
+//@ func nextPowerOfTwo
+//@   props C29
+//@   bitvector
+//@   modifies nothing
+//@   requires 1 <= v && v <= 4294967296
+//@   ensures [power-of-two] ispow2(result)
+//@   ensures [covers] v <= result
+//@   ensures [least] result < 2 * v
+
+// powers of two in integer mode: pow2n(n) restates what the bit-vector contract of
+// nextPowerOfTwo establishes; the one arithmetic fact used about it is that a power of two
+// >= 2 is even and its half is again a power of two (trusted axiom about bit patterns)
+//@ pure pow2n(n int) bool
+//@ axiom [pow2-bridge] forall n int {ispow2(n)} :: ispow2(n) ==> pow2n(n)
+//@ axiom [pow2-half] forall n int {pow2n(n)} :: pow2n(n) && n >= 2 ==> n % 2 == 0 && pow2n(n / 2)
+//@ axiom [pow2-positive] forall n int {pow2n(n)} :: pow2n(n) ==> n >= 1
+
+// root: folds a tree level by level; needs a power-of-two number (>= 2) of nodes
+//@ func root
+//@   props C29
+//@   reveal go_div
+//@   requires len(data) >= 2 && pow2n(len(data))
+//@   panics_never
+//@   modifies elems(data)
+
+// merkleProof: one sibling per level; the index stays inside the level at every depth
+//@ func merkleProof
+//@   props C29
+//@   reveal go_div
+//@   requires len(data) >= 2 && pow2n(len(data)) && 0 <= index && index < len(data) && p != nil
+//@   panics_never
+//@   modifies elems(data), *p, elems(p.HashRanges)
+
+// sortAndStructure: one hash range per proof, sorted by sum, ranges chained (each lower bound is
+// the previous upper bound, the first is 0), padded to a power-of-two number of leaves
+//@ func sortAndStructure
+//@   props C29
+//@   requires len(proofs) >= 1 && len(proofs) <= 4294967296
+//@   requires [no-nil-proof] forall i int :: 0 <= i && i < len(proofs) ==> proofs[i] != nil
+//@   panics_never
+//@   modifies heap
+//@   ensures [padded-to-power-of-two] pow2n(len(d)) && len(d) >= len(proofs) && len(d) < 2 * len(proofs) && d != nil
+//@   ensures [same-proofs-count] len(sortedProofs) == len(proofs)
+//@   ensures [first-lower-zero] d[0].Range.Lower == 0
+//@   ensures [chained] forall i int :: 0 <= i && i + 1 < len(proofs) ==> d[i + 1].Range.Lower == d[i].Range.Upper
+//@   ensures [ordered] forall i int :: 0 <= i && i < len(proofs) ==> d[i].Range.Lower <= d[i].Range.Upper
+//@   loop 0 invariant 0 - 1 <= rangeindex && rangeindex < len(hashRanges) && len(hashRanges) == len(proofs) && fresh(hashRanges) && off(hashRanges) == 0 && hashRanges != nil
+//@   loop 1 invariant 0 - 1 <= rangeindex && rangeindex < len(proofs) && len(hashRanges) == len(proofs) && len(proofs) == old(len(proofs)) && hashRanges != nil
+//@   loop 1 invariant sortedUpper(hashRanges)
+//@   loop 1 invariant rangeindex >= 0 ==> hashRanges[0].Range.Lower == 0 && lower == hashRanges[rangeindex].Range.Upper
+//@   loop 1 invariant rangeindex < 0 ==> lower == 0
+//@   loop 1 invariant forall i int :: 0 <= i && i < rangeindex ==> hashRanges[i + 1].Range.Lower == hashRanges[i].Range.Upper
+//@   loop 1 invariant forall i int :: 0 <= i && i <= rangeindex ==> hashRanges[i].Range.Lower <= hashRanges[i].Range.Upper
+//@   loop 2 invariant numberOfProofs <= i && i <= properLength && len(hashRanges) == properLength && numberOfProofs == old(len(proofs)) && len(proofs) == numberOfProofs && hashRanges != nil
+//@   loop 2 invariant hashRanges[0].Range.Lower == 0
+//@   loop 2 invariant forall j int :: 0 <= j && j + 1 < numberOfProofs ==> hashRanges[j + 1].Range.Lower == hashRanges[j].Range.Upper
+//@   loop 2 invariant forall j int :: 0 <= j && j < numberOfProofs ==> hashRanges[j].Range.Lower <= hashRanges[j].Range.Upper
+//@ pure sortedUpper(h []HashRange) bool = forall i int, j int :: 0 <= i && i <= j && j < len(h) ==> h[i].Range.Upper <= h[j].Range.Upper
+
+// GenerateRoot / GenerateProofs: safe for every set of at least two (non-nil) proofs and every
+// index inside the set; the proof's target is the sorted leaf at that index (lower <= upper)
+//@ func GenerateRoot
+//@   props C29
+//@   requires len(data) >= 2 && len(data) <= 4294967296
+//@   requires [no-nil-proof] forall i int :: 0 <= i && i < len(data) ==> data[i] != nil
+//@   panics_never
+//@   modifies heap
+//@   ensures [same-count] len(sortedData) == len(data)
+//@ func GenerateProofs
+//@   props C29
+//@   requires len(p) >= 2 && len(p) <= 4294967296 && 0 <= index && index < len(p)
+//@   requires [no-nil-proof] forall i int :: 0 <= i && i < len(p) ==> p[i] != nil
+//@   panics_never
+//@   modifies heap
+//@   ensures [index-kept] mProof.TargetIndex == index
+//@   ensures [target-is-an-ordered-leaf] mProof.Target.Range.Lower <= mProof.Target.Range.Upper
